@@ -55,6 +55,10 @@ type Cmd struct {
 	Dim    string                     `json:"dim"`
 	Outer  string                     `json:"outer"`
 	LawID  string                     `json:"lawId"`
+	// a second IN (sub-query) of the same WHERE
+	Sub2 string `json:"sub2"`
+	SQL2 string `json:"sql2"`
+	Dim2 string `json:"dim2"`
 }
 
 // SetQuery is one member of a set of queries run one after the other or all
@@ -456,35 +460,68 @@ func (r *runner) exec(c *Cmd) error {
 		// the subquery returns)
 		// c.SQL is the sub-query as a query of its own (c.Sub selects the dimension,
 		// which is only meaningful nested)
-		sub, err := r.node.RawQuery(c.SQL, c.Mem, stepTimeout)
 		line := map[string]interface{}{"a": "Other", "law": "in", "lawId": c.LawID, "sub": c.Sub, "outer": c.Outer, "mem": c.Mem}
+		literals := func(sql, dim string) ([]string, error) {
+			sub, err := r.node.RawQuery(sql, c.Mem, stepTimeout)
+			if err != nil {
+				return nil, err
+			}
+			seen := map[string]bool{}
+			var lits []string
+			for _, row := range sub {
+				v, ok := row.Dims[dim]
+				if !ok || v == nil {
+					continue
+				}
+				var lit string
+				switch x := v.(type) {
+				case string:
+					lit = "'" + x + "'"
+				default:
+					lit = fmt.Sprint(x)
+				}
+				if !seen[lit] {
+					seen[lit] = true
+					lits = append(lits, lit)
+				}
+			}
+			return lits, nil
+		}
+		lits, err := literals(c.SQL, c.Dim)
 		if err != nil {
 			line["err"] = "sub: " + err.Error()
 			ctl.Emit(line)
 			return nil
 		}
-		seen := map[string]bool{}
-		var lits []string
-		for _, row := range sub {
-			v, ok := row.Dims[c.Dim]
-			if !ok || v == nil {
-				continue
-			}
-			var lit string
-			switch x := v.(type) {
-			case string:
-				lit = "'" + x + "'"
-			default:
-				lit = fmt.Sprint(x)
-			}
-			if !seen[lit] {
-				seen[lit] = true
-				lits = append(lits, lit)
-			}
-		}
 		line["values"] = lits
 		if len(lits) == 0 {
 			line["err"] = "subquery returned no values"
+			ctl.Emit(line)
+			return nil
+		}
+		if c.Sub2 != "" {
+			lits2, err := literals(c.SQL2, c.Dim2)
+			if err != nil || len(lits2) == 0 {
+				line["err"] = fmt.Sprintf("second subquery: %v, %d values", err, len(lits2))
+				ctl.Emit(line)
+				return nil
+			}
+			line["values2"], line["sub2"] = lits2, c.Sub2
+			nested, err1 := r.node.RawQuery(fmt.Sprintf(c.Outer, "("+c.Sub+")", "("+c.Sub2+")"), c.Mem, stepTimeout)
+			literal, err2 := r.node.RawQuery(fmt.Sprintf(c.Outer, "("+strings.Join(lits, ", ")+")", "("+strings.Join(lits2, ", ")+")"), c.Mem, stepTimeout)
+			line["nested"], line["literal"] = nested, literal
+			if nested == nil {
+				line["nested"] = []zv.RawRow{}
+			}
+			if literal == nil {
+				line["literal"] = []zv.RawRow{}
+			}
+			if err1 != nil {
+				line["errNested"] = err1.Error()
+			}
+			if err2 != nil {
+				line["errLiteral"] = err2.Error()
+			}
 			ctl.Emit(line)
 			return nil
 		}
